@@ -144,3 +144,26 @@ def fake_parent(el):
     """Stand-in parent of a detached element (holds exactly [el])."""
     from soupsieve import css_match as cm
     return cm._FakeParent(el)
+
+
+@prim
+def rattrs(el):
+    """el.attrs.items() as (key, raw value) pairs."""
+    return [(str(k), v) for k, v in el.attrs.items()]
+
+
+@prim
+def norm(v):
+    from spec import css_ref
+    return css_ref.norm_value(v)
+
+
+@prim
+def as_str(v):
+    """A normalised attribute value seen as Optional[str] (only meaningful when it is None or a string)."""
+    return v
+
+
+@prim
+def is_str_val(v):
+    return v is None or isinstance(v, str)
